@@ -97,6 +97,7 @@ fn spec(cfg: Config, mode: Mode, depth: usize, devs: usize) -> SeqSpec {
             }
             a.push((Op::RekeyOut { side: s }, true));
             a.push((Op::RekeyIn { side: s }, true));
+            a.push((Op::RekeyManual { side: s, i: Some(1), r: Some(2) }, true));
         }
         a
     });
@@ -130,6 +131,10 @@ fn linear_sweep(ctx: &Ctx, cfg: &Config, label: &str) {
         // count from zero
         for k in 0..300usize {
             ops.push(Op::TWrite { side: w, plen: k % 5, cap: Cap::Roomy });
+            if k % 97 == 11 {
+                ops.push(Op::RekeyManual { side: w, i: Some(5), r: Some(6) });
+                ops.push(Op::RekeyManual { side: r, i: Some(5), r: Some(6) });
+            }
             if k % 37 == 5 {
                 fails(w, &mut ops);
                 ops.push(Op::TRead { side: r, msg: Msg::Last(w), cap: Cap::NeedPlus(-1) });
@@ -154,6 +159,16 @@ fn linear_sweep(ctx: &Ctx, cfg: &Config, label: &str) {
             ops.push(Op::TWrite { side: w, plen: 3, cap: Cap::Roomy });
             ops.push(Op::TRead { side: r, msg: Msg::Last(w), cap: Cap::Roomy });
             fails(w, &mut ops);
+        }
+        // rekeys of every kind never move a counter - not even an exhausted one (both sides alike, so the keys stay in step)
+        for rk in [
+            vec![Op::RekeyManual { side: w, i: Some(1), r: Some(2) }, Op::RekeyManual { side: r, i: Some(1), r: Some(2) }],
+            vec![Op::RekeyInitManual { side: w, k: 3 }, Op::RekeyInitManual { side: r, k: 3 }, Op::RekeyRespManual { side: w, k: 4 }, Op::RekeyRespManual { side: r, k: 4 }],
+            vec![Op::RekeyOut { side: w }, Op::RekeyIn { side: r }, Op::RekeyIn { side: w }, Op::RekeyOut { side: r }],
+        ] {
+            ops.extend(rk);
+            ops.push(Op::TWrite { side: w, plen: 3, cap: Cap::Roomy });
+            ops.push(Op::TRead { side: r, msg: Msg::Last(w), cap: Cap::Roomy });
         }
         // exhaustion is a property of the counter value, not a latch: once the counters are set elsewhere
         // (explicit receiving-nonce setting; the sender through the hook) traffic resumes and counts on
